@@ -5,7 +5,10 @@ Answer: "<lock hex> <script_type> <network name> <address string>" ("-" = empty 
 
 via: out = Output(1000, network=N, ...)                       add = Transaction(network=N).add_output(1000, ...)
      tx  = a raw transaction (written here byte by byte) paying to the script, read with Transaction.parse(raw, network=N)
-     rt  = Output(...) put into Transaction(outputs=[o]), serialised with raw() and read back with Transaction.parse"""
+     rt  = Output(...) put into Transaction(outputs=[o]), serialised with raw() and read back with Transaction.parse
+     ks  = (hd requests with a history) the script written from the key's hash160 property, read with Output(lock_script=)
+Histories: an `hd` request may carry a 12th token, a `key` request a 10th: steps replayed on the key object before it is used
+(replay()); any request may end in '@2' / '@f': the same argument objects were used for an earlier output (make())."""
 import sys, os, logging
 sys.path.insert(0, os.path.dirname(os.path.abspath(__file__)))
 from common_impl import hx, unhx, serve
@@ -43,8 +46,23 @@ def raw_tx_paying_to(script, value=1000):
             b'\x01' + value.to_bytes(8, 'little') + varint(len(script)) + script + b'\x00\x00\x00\x00')
 
 
+# '@2' / '@f' as last token of a request: the very same argument objects (Address, HDKey, bytes) were already used for an
+# output before — of the same network ('@2'), or of another one, which mostly refuses them ('@f')
+_EARLIER = [None]
+
+
 def make(net, via, **kw):
     kw = {k: v for k, v in kw.items() if v is not None}
+    if _EARLIER[0]:
+        n0 = net if _EARLIER[0] == '@2' else ('litecoin' if net != 'litecoin' else 'bitcoin')
+        _EARLIER[0] = None
+        try:
+            o0 = Output(1000, network=n0, **kw)
+            o0.address, o0.script_type, o0.as_dict()
+        except RecursionError:
+            raise
+        except Exception:
+            pass
     if via == 'out':
         return Output(1000, network=net, **kw)
     if via == 'add':
@@ -92,9 +110,78 @@ def hdkey(form, pub, net, wt, ms):
     raise ValueError(form)
 
 
+def _quiet(f):
+    """one step of a history: a look at the key; a refused look (BKeyError ...) is part of the history as well"""
+    try:
+        return f()
+    except RecursionError:
+        raise
+    except Exception:
+        return None
+
+
+def replay(h, hist, net):
+    """earlier calls on the SAME key object (the `hd` request's 12th token, steps separated by ','):
+       a:<script_type|->:<encoding|->  h.address(script_type=..., encoding=...)      ao  h.address_obj
+       px  h.address(prefix=b'\x05')   w / wp / wk  h.wif() / wif_public() / wif_key()   h  h.hash160   pb  public_byte/hex
+       d   h.as_dict()                  o / of  an Output was built from it before (own network / another one)
+       s   Script(keys=[h], script_types=['p2pkh']).serialize()                        p   continue with h.public() (a copy)
+       au / cu  h.address_uncompressed() / h.address(compressed=False)
+       n:<network>  h.network_change(network): from here on the key IS a key of that network
+       wx  h.wif(witness_type=<another>, multisig=<the other>), wif_public likewise      c  h.subkey_for_path('0/1')"""
+    from bitcoinlib.scripts import Script
+    for st in hist.split(','):
+        f = st.split(':')
+        c = f[0]
+        if c == 'a':
+            _quiet(lambda: h.address(script_type=opt(f[1]), encoding=opt(f[2])))
+        elif c == 'ao':
+            _quiet(lambda: h.address_obj)
+        elif c == 'px':
+            _quiet(lambda: h.address(prefix=b'\x05'))
+        elif c == 'w':
+            _quiet(lambda: h.wif())
+        elif c == 'wp':
+            _quiet(lambda: h.wif_public())
+        elif c == 'wk':
+            _quiet(lambda: h.wif_key())
+        elif c == 'h':
+            _quiet(lambda: h.hash160)
+        elif c == 'pb':
+            _quiet(lambda: (h.public_byte, h.public_hex, h.public_compressed_byte))
+        elif c == 'd':
+            _quiet(lambda: h.as_dict())
+        elif c == 'o':
+            _quiet(lambda: Output(1000, address=h, network=net).address)
+        elif c == 'of':
+            _quiet(lambda: Output(1000, address=h, network=('litecoin' if net != 'litecoin' else 'bitcoin')))
+        elif c == 's':
+            _quiet(lambda: Script(keys=[h], script_types=['p2pkh']).serialize())
+        elif c == 'p':
+            h = h.public()
+        elif c == 'n':
+            h.network_change(f[1])
+        elif c == 'wx':
+            ow = 'segwit' if h.witness_type != 'segwit' else 'p2sh-segwit'
+            _quiet(lambda: (h.wif(witness_type=ow, multisig=not h.multisig), h.wif_public(witness_type=ow, multisig=not h.multisig)))
+        elif c == 'c':
+            _quiet(lambda: h.subkey_for_path('0/1').address())
+        elif c == 'au':
+            _quiet(lambda: h.address_uncompressed())
+        elif c == 'cu':
+            _quiet(lambda: h.address(compressed=False))
+        else:
+            raise ValueError(st)
+    return h
+
+
 def dispatch(t):
     if t[0] == 'F':
         t = t[2:]
+    _EARLIER[0] = None
+    if t[-1] in ('@2', '@f'):
+        _EARLIER[0] = t[-1]
+        t = t[:-1]
     k = t[0]
     try:
         if k == 'str':
@@ -110,6 +197,16 @@ def dispatch(t):
         if k == 'hd':
             form = t[10] if len(t) > 10 else 'raw'
             h = hdkey(form, unhx(t[6]), t[3], t[4], t[5] == '1')
+            if len(t) > 11:
+                try:
+                    h = replay(h, t[11], t[3])
+                except ValueError:
+                    return 'BADREQ'
+            if t[2] == 'ks':
+                # the script written from the key's own hash (a property of the object), read back as an output
+                from bitcoinlib.scripts import Script
+                lt = {'legacy': 'p2pkh', 'segwit': 'p2wpkh'}[h.witness_type]
+                return show(make(t[1], 'out', lock_script=Script(script_types=[lt], public_hash=h.hash160).serialize()))
             return show(make(t[1], t[2], address=h))
         if k == 'key':
             pub = unhx(t[5])
@@ -119,6 +216,11 @@ def dispatch(t):
                 ko = Key(priv_of(pub), network=t[3], compressed=(len(pub) == 33))
             if ko.public_byte != pub:
                 return 'BADREQ'
+            if len(t) > 9:
+                try:
+                    ko = replay(ko, t[9], t[3])
+                except ValueError:
+                    return 'BADREQ'
             return show(make(t[1], t[2], address=ko.address_obj))
         if k == 'pk':
             return show(make(t[1], t[2], public_key=unhx(t[5]), script_type=opt(t[3]), encoding=opt(t[4])))
